@@ -16,6 +16,7 @@ ID = "C08"
 LEVEL = "model_checking"
 
 FS = 1  # scenario time unit in femtoseconds
+PERM_ITEMS = 6   # every transposition of two of the (first 6) runnable items of a set is an alternative at a choice point
 
 
 def period(n):
@@ -29,7 +30,7 @@ class Scenario:
         self.cfg = cfg
 
     def build(self):
-        from amaranth.hdl import Module, Signal, ClockDomain
+        from amaranth.hdl import Module, Signal, ClockDomain, Cat
         cfg = self.cfg
         m = Module()
         self.a = a = ClockDomain("a")
@@ -53,6 +54,17 @@ class Scenario:
         m.d.comb += y.eq(x + inp)
         m.d.a += qa.eq(ca + 1)
         m.d.comb += qc.eq(ca & ~rb)
+        # a memory written from both domains: lane 0 by domain a, lane 1 by domain b, same row; when the active edges coincide
+        # both per-domain memory processes run in the same delta cycle, in an order the engine does not define
+        from amaranth.lib.memory import Memory
+        self.mem = mem = Memory(shape=4, depth=2, init=[0, 0])
+        m.submodules.mem = mem
+        wa = mem.write_port(domain="a", granularity=2)
+        wb = mem.write_port(domain="b", granularity=2)
+        self.rp = rp = mem.read_port(domain="comb")
+        m.d.comb += [wa.addr.eq(0), wa.data.eq(Cat(ca, ca)), wa.en.eq(0b01),
+                     wb.addr.eq(0), wb.data.eq(Cat(rb, rb)), wb.en.eq(Cat(0, inp[1])),
+                     rp.addr.eq(0)]
         return m
 
     def run(self, sched, mutate=None):
@@ -106,6 +118,7 @@ class Scenario:
             # final state of every signal, read straight from the engine (a testbench cannot be added to a running simulation)
             try:
                 final = [eng.get_value(sig) for sig in (self.ca, self.rb, self.x, self.y, self.qa, self.qc, self.pa, self.pc)]
+                final += [eng.get_value(self.mem.data[i]) for i in range(2)]
             except Exception as ex:
                 final = []
                 errs.append(f"final read raised {type(ex).__name__}: {ex}")
@@ -123,8 +136,8 @@ class Scenario:
                 return ctx.elapsed_time().femtoseconds
 
             def snap(tag):
-                vals = tuple(ctx.get(sig) for sig in (s.ca, s.rb, s.x, s.y, s.qa, s.qc, s.pa, s.pc, s.inp))
-                ca_v, rb_v, x_v, y_v, qa_v, qc_v, pa_v, pc_v, inp_v = vals
+                vals = tuple(ctx.get(sig) for sig in (s.ca, s.rb, s.x, s.y, s.qa, s.qc, s.pa, s.pc, s.inp, s.rp.data))
+                ca_v, rb_v, x_v, y_v, qa_v, qc_v, pa_v, pc_v, inp_v, mem_v = vals
                 log.append((tid, tag, now(), vals))
                 # absolute oracles that hold at every instant a testbench can observe
                 if x_v != ca_v ^ rb_v or y_v != (x_v + inp_v) & 7 or qc_v != ca_v & ~rb_v & 3:
@@ -225,7 +238,7 @@ def run_scenarios(task):
         sc = Scenario(cfg)
         # conformance run: the unmodified engine (no interception) must give the default-order observation
         plain = sc.run(None)
-        st = explore(lambda s: sc.run(s), bound, max_runs=max_runs, only_funcs={"step_design", "commit"})
+        st = explore(lambda s: sc.run(s), bound, max_runs=max_runs, only_funcs={"step_design", "commit"}, max_perm_items=PERM_ITEMS)
         outs = st["outcomes"]
         out["cov"]["scenarios"] += 1
         out["cov"]["schedules"] += st["runs"]
@@ -315,7 +328,7 @@ def replay(payload):
     sc = Scenario(cfg)
     outs = []
     for ch in payload["choices"]:
-        outs.append(sc.run(Scheduler(ch, only_funcs={"step_design", "commit"})))
+        outs.append(sc.run(Scheduler(ch, only_funcs={"step_design", "commit"}, max_perm_items=PERM_ITEMS)))
     res = []
     if len(outs) == 2 and outs[0] != outs[1]:
         res.append("order-dependent: " + first_diff(outs[0], outs[1]))
